@@ -439,8 +439,44 @@ pub fn c10_bv(g: &mut Gen) {
     }
 }
 
+/// iterators positioned by select / predecessor / successor in SHORT superblocks that follow a LONG one (and a long one
+/// that follows short ones): the pointer of a superblock into the `short` / `long` arrays is not a function of its number
+pub fn positioned_after_long_superblock(g: &mut Gen) {
+    for invert in [false, true] {
+        let mut layouts: Vec<Vec<bool>> = Vec::new();
+        // 4096 items at stride 30 (one long superblock: span 122 880 >= 18^4), then 9000 consecutive items (short superblocks)
+        let mut a = vec![invert; 250_000];
+        for i in 0..4096 { a[30 * i] = !invert; }
+        for i in 0..9000 { a[125_000 + i] = !invert; }
+        layouts.push(a);
+        // short, long, short
+        let mut b = vec![invert; 260_000];
+        for i in 0..4096 { b[i] = !invert; }
+        for i in 0..4096 { b[5000 + 30 * i] = !invert; }
+        for i in 0..5000 { b[130_000 + 2 * i] = !invert; }
+        layouts.push(b);
+        for bits in layouts {
+            let len = bits.len();
+            let cnt = bits.iter().filter(|b| **b != invert).count();
+            let mut lines = vec![format!("bv A from_raw {} {}", len, words_of_bits(&bits)), "bv A enable rsz".to_string()];
+            let sel = if invert { "sel0" } else { "sel" };
+            for r in [0usize, 4095, 4096, 4097, 4159, 4160, 4161, 5000, 8191, 8192, 8193, 8200, 9000, 12_287, 12_288, 12_289, cnt - 65, cnt - 2, cnt - 1, cnt] {
+                if r <= cnt { lines.push(format!("bv A it {} {} : l n n l b n", sel, r)); }
+            }
+            for _ in 0..10 { let r = 4096 + g.rng.below((cnt - 4096) as u64); lines.push(format!("bv A it {} {} : n n N70 l n", sel, r)); }
+            if !invert {
+                for x in [0usize, 4999, 5000, 125_000, 125_001, 126_000, 129_999, 130_000, 130_001, 133_000, 139_998, len - 1] {
+                    lines.push(format!("bv A it pred {} : l n n l", x)); lines.push(format!("bv A it succ {} : l n n l", x));
+                }
+            }
+            g.group(lines);
+        }
+    }
+}
+
 pub fn c10(g: &mut Gen) {
     c10_bv(g);
+    positioned_after_long_superblock(g);
     crate::gen_ser::long_skips_under_supports(g);
     crate::gen_sp::c10_sp(g);
     crate::gen_rl::c10_rl(g);
